@@ -111,6 +111,8 @@ def run(ctx):
                          % (o["delivered"], o["extra_bytes"], s["delivered"]))
         elif o["delivered"] < s["delivered"]:
             probs.append("receiver delivered only %d of the %d untouched leading records" % (o["delivered"], s["delivered"]))
+        if o.get("after_err"):
+            probs.append("Read delivered %d more bytes after it had returned an error (the error is not sticky)" % o["after_err"])
         if s["err"] and o["err_class"] != "fatal":
             probs.append("the first affected record was not rejected with a fatal error (Read ended with %s)" % (o["err_text"] or "EOF"))
         if not s["err"] and o["err_class"] != "eof":
@@ -131,6 +133,8 @@ def run(ctx):
             cur = []
         cur.append(e)
     traces.append(cur)
+    for t in traces:
+        t.append({"ev": "end"})
 
     def describe(i, lineno, ev):
         tid = traces[i][0].get("id")
@@ -147,6 +151,9 @@ def run(ctx):
                        "other-direction / other-connection record) x suite x direction, plus single-bit flips of record 2; non-trivial = at least one adversary action")
     for s in rnd.sample(scheds, 3):
         ctx.sample({k: s[k] for k in ("ops", "delivered", "err", "suite", "dir", "plan")})
+
+    # 4b. CBC padding catalogue: TLC seals records with every padding length under the live session keys
+    padcat(ctx, thorough, rnd)
 
     # 5. binding self-test: a trace with a wrong sequence number must be rejected
     if not ctx.violations:
@@ -172,3 +179,74 @@ def run(ctx):
             if not rejected:
                 raise Infra("self-test: corrupted hook trace accepted")
             ctx.cov["binding_selftest"] = "hook trace with one sequence number off by one rejected"
+
+
+def padcat(ctx, thorough, rnd):
+    import subprocess
+    from vf import GOENV
+    d = ctx.tladir()
+    nconn = 64 if thorough else 16
+    lengths = list(range(256))
+    rnd.shuffle(lengths)
+    # corruptions: (pad, index of the corrupted padding byte; index pad = the length byte itself)
+    corr = [(255, 0), (255, 255), (255, 128), (255, 1), (16, 0), (15, 15), (0, 0), (1, 0), (254, 0), (200, 100)]
+    while len(corr) < nconn:
+        L = rnd.randrange(256)
+        corr.append((L, rnd.randrange(L + 1)))
+    plans = []
+    per = (256 + nconn - 1) // nconn
+    for i in range(nconn):
+        recs = [{"pad": L, "corrupt": -1} for L in lengths[i * per:(i + 1) * per]]
+        L, j = corr[i]
+        recs.append({"pad": L, "corrupt": j})
+        plans.append({"recs": recs})
+    planf = os.path.join(ctx.work, "padplan.ndjson")
+    jobsf = os.path.join(d, "padjobs.ndjson")
+    sealedf = os.path.join(ctx.work, "sealed.ndjson")
+    obsf = os.path.join(ctx.work, "padobs.ndjson")
+    write_ndjson(planf, plans)
+    pr = subprocess.Popen([ctx.hbin, "c07-pad", planf, jobsf, sealedf, obsf], stdin=subprocess.PIPE, stdout=subprocess.PIPE,
+                          stderr=subprocess.PIPE, text=True, env=dict(GOENV), cwd=ctx.work)
+    try:
+        while True:
+            line = pr.stdout.readline()
+            if not line:
+                raise Infra("padding driver died: " + pr.stderr.read()[-2000:])
+            if line.strip() == "READY":
+                break
+        with open(os.path.join(d, "seal.cfg"), "w") as f:
+            f.write('SPECIFICATION Spec\nCONSTANTS\n JobsFile = "padjobs.ndjson"\n')
+        r = ctx.tlc("RecordSeal", "seal.cfg", workers=min(16, nconn), timeout=3000)
+        sealed = markers(r["out"], "SEALED")
+        if len(sealed) != nconn:
+            raise Infra("TLC sealed %d of %d connections" % (len(sealed), nconn))
+        for s in sealed:
+            if not all(x["aligned"] for x in s["recs"]):
+                raise Infra("padding plan not block aligned")
+        write_ndjson(sealedf, sealed)
+        pr.stdin.write("go\n")
+        pr.stdin.flush()
+        out, err = pr.communicate(timeout=600)
+        if pr.returncode != 0:
+            raise Infra("padding driver failed: " + err[-2000:])
+    finally:
+        if pr.poll() is None:
+            pr.kill()
+    obs = read_ndjson(obsf)
+    nval = sum(1 for p in plans for r in p["recs"] if r["corrupt"] == -1)
+    ok = 0
+    for o in obs:
+        if o["valid"]:
+            if o["err"] or o["delivered"] != o["want"]:
+                ctx.violation("CBC record with valid padding length %d sealed by the specification was not delivered: err=%r delivered=%s" % (o["pad"], o["err"], o["delivered"][:8]), o)
+            else:
+                ok += 1
+        else:
+            if not o["err"] or o["delivered"]:
+                ctx.violation("CBC record with padding length %d and padding byte %d corrupted was accepted (delivered %d bytes, err=%r)" % (o["pad"], o["corrupt"], len(o["delivered"]), o["err"]), o)
+            else:
+                ok += 1
+    if len(obs) < nval:
+        raise Infra("padding catalogue incomplete: %d observations" % len(obs))
+    ctx.log("CBC padding catalogue: %d TLC-sealed records (all lengths 0..255 valid, %d corrupted) judged correctly: %d" % (len(obs), nconn, ok))
+    ctx.cov["padding_records_sealed_by_tlc"] = len(obs)
